@@ -1170,13 +1170,19 @@ sansScaling (const Matrix33<T>& mat, bool exc)
 
     if (!extractSHRT (mat, scl, shr, rot, tran, exc)) return mat;
 
-    Matrix33<T> M;
+    //
+    // Recompose as shear * rotation * translation.  Matrix33::rotate
+    // multiplies on the right (unlike translate and shear), so the
+    // factors are built separately and multiplied explicitly.
+    //
 
-    M.translate (tran);
-    M.rotate (rot);
-    M.shear (shr);
+    Matrix33<T> H, R, M;
 
-    return M;
+    H.setShear (shr);
+    R.setRotation (rot);
+    M.setTranslation (tran);
+
+    return H * R * M;
 }
 
 template <class T>
@@ -1190,10 +1196,14 @@ removeScaling (Matrix33<T>& mat, bool exc)
 
     if (!extractSHRT (mat, scl, shr, rot, tran, exc)) return false;
 
-    mat.makeIdentity ();
-    mat.translate (tran);
-    mat.rotate (rot);
-    mat.shear (shr);
+    // shear * rotation * translation (Matrix33::rotate multiplies on the right)
+    Matrix33<T> H, R, M;
+
+    H.setShear (shr);
+    R.setRotation (rot);
+    M.setTranslation (tran);
+
+    mat = H * R * M;
 
     return true;
 }
